@@ -622,6 +622,10 @@ type vExitPanic struct{ code int }
 // and restored afterwards. stdoutOverride (optional) replaces os.Stdout.
 func vRunApp(inv vInvocation) vRun { return vRunAppTo(inv, nil) }
 
+// vLocalChangedBy names the last in-process invocation that left time.Local pointing somewhere else than where it was
+// when the invocation began ("" = none); checks that care reset and read it.
+var vLocalChangedBy string
+
 func vRunAppTo(inv vInvocation, stdoutOverride *os.File) (res vRun) {
 	vWatchArm(vWatchLimit)
 	defer vWatchDisarm()
@@ -662,9 +666,15 @@ func vRunAppTo(inv vInvocation, stdoutOverride *os.File) (res vRun) {
 	}
 	os.Stderr = vErrFile
 	cli.ErrWriter = vErrFile
-	time.Local = vZone(inv.TZ)
+	runLocal := vZone(inv.TZ)
+	time.Local = runLocal
 	cli.OsExiter = func(code int) { panic(vExitPanic{code}) }
 	defer func() {
+		if time.Local != runLocal {
+			// the process zone belongs to the process, not to one invocation: whoever calls the program again in the same
+			// process (as this harness does) would see another zone than the environment says
+			vLocalChangedBy = fmt.Sprintf("%q", inv.Args)
+		}
 		os.Stdout, os.Stderr, time.Local, cli.OsExiter = oldOut, oldErr, oldLocal, oldExiter
 		cli.ErrWriter = oldErrWriter
 		for k, v := range oldEnv {
